@@ -16,17 +16,38 @@
 #include "libMultiMarkdown.h"
 #include "d_string.h"
 #define MAXT 3
-#define MAXP 2048
+#define MAXP (1 << 18)
 static int NT;
 static sem_t go[MAXT], back;
 static volatile int finished[MAXT];
 static __thread int me = -1;
 static int sched_on = 0;
-static int n_points, chosen[MAXP], enabled_mask[MAXP], running_before[MAXP], point_kind[MAXP];
-static volatile int cur_kind[MAXT]; static volatile int used_kinds[MAXT];
+static int n_points; static int *chosen, *enabled_mask, *running_before;   /* allocated in main */
+static volatile int running = -1; static sem_t alldone;
+static volatile int used_kinds[MAXT];
 static const int *prefix; static int prefix_len;
 enum { K_RANSTART = 1, K_RANNEXT = 2, K_RAND = 4, K_SRAND = 8, K_TIME = 16, K_LOCALTIME = 32 };
-static void sched_point(int kind) { if (sched_on && me >= 0) { cur_kind[me] = kind; used_kinds[me] |= kind; sem_post(&back); sem_wait(&go[me]); } }
+static int K_FUNC_ON = 1;
+static void pick(int from, int kind) {
+	/* executed by the only running thread (or by main at the start): canonical order = running thread first if still enabled, then ascending ids */
+	int mask = 0; for (int i = 0; i < NT; i++) if (!finished[i]) mask |= 1 << i;
+	if (!mask) { sem_post(&alldone); return; }
+	int order[MAXT], no = 0;
+	if (from >= 0 && (mask >> from & 1)) order[no++] = from;
+	for (int i = 0; i < NT; i++) if ((mask >> i & 1) && i != from) order[no++] = i;
+	int c = n_points < prefix_len ? prefix[n_points] : 0;
+	if (c >= no) { fprintf(stderr, "prefix divergence at point %d\n", n_points); _exit(3); }
+	if (n_points >= MAXP) { fprintf(stderr, "too many scheduling points\n"); _exit(4); }
+	enabled_mask[n_points] = mask; running_before[n_points] = (from >= 0 && (mask >> from & 1)) ? from : -1; chosen[n_points] = c; n_points++;
+	int next = order[c];
+	if (next == from) return;                     /* keep running: no hand-off */
+	running = next; sem_post(&go[next]);
+	if (from >= 0 && !finished[from]) sem_wait(&go[from]);
+	(void)kind;
+}
+static void sched_point(int kind) { if (sched_on && me >= 0 && me == running) { used_kinds[me] |= kind; pick(me, kind); } }
+__attribute__((no_instrument_function)) void __cyg_profile_func_enter(void *fn, void *site) { (void)fn; (void)site; if (K_FUNC_ON) sched_point(64); }
+__attribute__((no_instrument_function)) void __cyg_profile_func_exit(void *fn, void *site) { (void)fn; (void)site; }
 void __real_ran_start(long); void __wrap_ran_start(long s) { sched_point(K_RANSTART); __real_ran_start(s); }
 long __real_ran_num_next(void); long __wrap_ran_num_next(void) { sched_point(K_RANNEXT); return __real_ran_num_next(); }
 int __real_rand(void); int __wrap_rand(void) { sched_point(K_RAND); return __real_rand(); }
@@ -44,6 +65,9 @@ static const job JOBS[] = {
 	{ "random-foot", "a[^x] b[^y]\n\n[^x]: one\n\n[^y]: two\n", XD | EXT_RANDOM_FOOT, FORMAT_HTML, 1 },
 	{ "random-foot2", "c[^p]\n\n[^p]: note\n", XD | EXT_RANDOM_FOOT, FORMAT_HTML, 1 },
 	{ "epub", "Title: E\n\n# H\n\ntext\n", XD, FORMAT_EPUB, 0 },
+	{ "tiny-a", "# Head A\n\n[x] *t*\n\n[x]: http://u/\n", XD, FORMAT_HTML, 0 },
+	{ "tiny-b", "Other B\n=======\n\n| a |\n|---|\n| b |\n[Cap]\n\nc[^n]\n\n[^n]: n\n", XD, FORMAT_LATEX, 0 },
+	{ "tiny-c", "## C [lab]\n\nterm\n: def \"q\"\n", XD, FORMAT_FODT, 0 },
 };
 #define NJOBS ((int)(sizeof JOBS / sizeof JOBS[0]))
 static int tjobs[MAXT][2], ntj[MAXT];
@@ -68,41 +92,33 @@ static void run_job(int t, int k) {
 	anchors_ok[t][k] = (j->random && d) ? anchors_consistent(d->str) : 1;
 	if (d) d_string_free(d, true);
 }
-static void *body(void *arg) { me = (int)(intptr_t)arg; sem_wait(&go[me]); for (int k = 0; k < ntj[me]; k++) run_job(me, k); finished[me] = 1; sem_post(&back); return NULL; }
+static void *body(void *arg) { me = (int)(intptr_t)arg; sem_wait(&go[me]); for (int k = 0; k < ntj[me]; k++) run_job(me, k); finished[me] = 1; pick(me, 0); return NULL; }
 
 static void run_exec(void) {
-	pthread_t th[MAXT]; sem_init(&back, 0, 0);
+	pthread_t th[MAXT]; sem_init(&alldone, 0, 0);
 	for (int i = 0; i < NT; i++) { sem_init(&go[i], 0, 0); finished[i] = 0; pthread_create(&th[i], NULL, body, (void *)(intptr_t)i); }
-	sched_on = 1; n_points = 0; int running = -1;
-	for (;;) {
-		int mask = 0; for (int i = 0; i < NT; i++) if (!finished[i]) mask |= 1 << i;
-		if (!mask) break;
-		int order[MAXT], no = 0;
-		if (running >= 0 && (mask >> running & 1)) order[no++] = running;
-		for (int i = 0; i < NT; i++) if ((mask >> i & 1) && i != running) order[no++] = i;
-		int c = n_points < prefix_len ? prefix[n_points] : 0;
-		if (c >= no) { fprintf(stderr, "prefix divergence at point %d\n", n_points); _exit(3); }
-		if (n_points >= MAXP) { fprintf(stderr, "too many scheduling points\n"); _exit(4); }
-		enabled_mask[n_points] = mask; running_before[n_points] = running; chosen[n_points] = c; point_kind[n_points] = running >= 0 ? cur_kind[running] : 0; n_points++;
-		running = order[c]; sem_post(&go[running]); sem_wait(&back);
-	}
+	sched_on = 1; n_points = 0; running = -1;
+	pick(-1, 0);
+	sem_wait(&alldone);
 	for (int i = 0; i < NT; i++) pthread_join(th[i], NULL);
 }
-typedef struct { int n; int ch[MAXP], mask[MAXP], run[MAXP]; uint64_t out[MAXT][2]; int anch[MAXT][2]; int kinds[MAXT]; } result;
+typedef struct { int n; uint64_t out[MAXT][2]; int anch[MAXT][2]; int kinds[MAXT]; int *ch, *mask, *run; } result;
+static int wr(int fd, const void *p, size_t n) { size_t off = 0; while (off < n) { ssize_t k = write(fd, (const char *)p + off, n - off); if (k <= 0) return 0; off += k; } return 1; }
+static int rd(int fd, void *p, size_t n) { size_t off = 0; while (off < n) { ssize_t k = read(fd, (char *)p + off, n - off); if (k <= 0) return 0; off += k; } return 1; }
 static int exec_child(const int *pre, int plen, result *res) {
 	int fd[2]; if (pipe(fd)) return 0; fflush(stdout);
 	pid_t p = fork();
 	if (!p) {
 		close(fd[0]); prefix = pre; prefix_len = plen; run_exec();
-		static result r; r.n = n_points; memcpy(r.ch, chosen, sizeof(int) * n_points); memcpy(r.mask, enabled_mask, sizeof(int) * n_points); memcpy(r.run, running_before, sizeof(int) * n_points);
-		memcpy(r.out, outhash, sizeof outhash); memcpy(r.anch, anchors_ok, sizeof anchors_ok); for (int i = 0; i < MAXT; i++) r.kinds[i] = used_kinds[i];
-		size_t off = 0; while (off < sizeof r) { ssize_t k = write(fd[1], (char *)&r + off, sizeof r - off); if (k <= 0) break; off += k; }
+		result r; memset(&r, 0, sizeof r); r.n = n_points; memcpy(r.out, outhash, sizeof outhash); memcpy(r.anch, anchors_ok, sizeof anchors_ok); for (int i = 0; i < MAXT; i++) r.kinds[i] = used_kinds[i];
+		wr(fd[1], &r, sizeof r); wr(fd[1], chosen, sizeof(int) * n_points); wr(fd[1], enabled_mask, sizeof(int) * n_points); wr(fd[1], running_before, sizeof(int) * n_points);
 		_exit(0);
 	}
-	close(fd[1]); ssize_t got = 0; char *b = (char *)res;
-	while (got < (ssize_t)sizeof *res) { ssize_t k = read(fd[0], b + got, sizeof *res - got); if (k <= 0) break; got += k; }
+	close(fd[1]); int ok = rd(fd[0], res, sizeof *res);
+	if (ok) { res->ch = malloc(sizeof(int) * (res->n + 1)); res->mask = malloc(sizeof(int) * (res->n + 1)); res->run = malloc(sizeof(int) * (res->n + 1));
+		ok = rd(fd[0], res->ch, sizeof(int) * res->n) && rd(fd[0], res->mask, sizeof(int) * res->n) && rd(fd[0], res->run, sizeof(int) * res->n); }
 	close(fd[0]); int st; waitpid(p, &st, 0);
-	return got == (ssize_t)sizeof *res && WIFEXITED(st) && WEXITSTATUS(st) == 0 ? 1 : -(WIFEXITED(st) ? WEXITSTATUS(st) : 100 + WTERMSIG(st));
+	return ok && WIFEXITED(st) && WEXITSTATUS(st) == 0 ? 1 : -(WIFEXITED(st) ? WEXITSTATUS(st) : 100 + WTERMSIG(st));
 }
 static uint64_t serial[NJOBS]; static long execs, viols, distinct_outcomes; static int bound; static uint64_t seen_out[4096]; static int nseen;
 static double deadline; static int timed_out;
@@ -111,15 +127,16 @@ static const char *mixname;
 static void report(const result *r, int t, int k, const char *what) {
 	const job *j = &JOBS[tjobs[t][k]]; int pc = 0;
 	for (int i = 0; i < r->n; i++) if (r->ch[i] > 0 && r->run[i] >= 0 && (r->mask[i] >> r->run[i] & 1)) pc++;
-	const char *cause = (r->kinds[t] & (K_RANNEXT)) ? "knuth-generator" : (r->kinds[t] & (K_RAND | K_SRAND)) ? "libc-rand" : "other";
+	const char *cause = (r->kinds[t] & (K_RANNEXT)) ? "knuth-generator" : (r->kinds[t] & (K_RAND | K_SRAND)) ? "libc-rand" : "other-shared-state";
 	printf("{\"t\":\"viol\",\"sig\":\"sched:%s:%s\",\"detail\":\"thread %d job %s: %s in a schedule with %d preemption(s)\",\"mix\":\"%s\",\"preemptions\":%d,\"points\":%d,\"schedule\":[", what, cause, t, j->name, what, pc, mixname, pc, r->n);
-	for (int i = 0; i < r->n; i++) printf("%s%d", i ? "," : "", r->ch[i]);
+	{ int first = 1; for (int i = 0; i < r->n; i++) if (r->ch[i]) { printf("%s[%d,%d]", first ? "" : ",", i, r->ch[i]); first = 0; } }
 	printf("]}\n");
 }
 static void explore(int *pre, int plen) {
 	if (timed_out) return;
 	if (now() > deadline) { timed_out = 1; return; }
 	result *res = malloc(sizeof *res);
+	memset(res, 0, sizeof *res);
 	int rc = exec_child(pre, plen, res);
 	if (rc != 1) { printf("{\"t\":\"internal\",\"what\":\"schedule child failed (%d) in mix %s\"}\n", rc, mixname); free(res); return; }
 	execs++;
@@ -146,6 +163,7 @@ static void explore(int *pre, int plen) {
 int main(int argc, char **argv) {
 	/* usage: c17_sched <max preemptions> <deadline s> <mix>...   mix = job[+job]|job[+job][|job]  (thread bodies separated by '|') */
 	int maxb = atoi(argv[1]); double dl = atof(argv[2]); deadline = now() + dl;
+	chosen = malloc(sizeof(int) * MAXP); enabled_mask = malloc(sizeof(int) * MAXP); running_before = malloc(sizeof(int) * MAXP);
 	for (int j = 0; j < NJOBS; j++) {      /* serial, fresh-process reference */
 		int fd[2]; if (pipe(fd)) return 3;
 		if (!fork()) { NT = 1; tjobs[0][0] = j; ntj[0] = 1; run_job(0, 0); if (write(fd[1], &outhash[0][0], 8) != 8) _exit(3); _exit(0); }
